@@ -108,6 +108,50 @@ theorem readLines_writeText (ls : List Str) (hn : ∀ l ∈ ls, '\n' ∉ l) (hr 
   rw [h1]
   simp [stripPy_nil]
 
+/-- the same lines written with `\r\n` line ends (a file that went through another platform's text
+    mode): text-mode reading sees the same text -/
+def writeTextCRLF : List Str → Str
+  | [] => []
+  | l :: ls => l ++ '\r' :: '\n' :: writeTextCRLF ls
+
+theorem normNL_append_plain (l rest : Str) (b : Bool) (hr : '\r' ∉ l) (hn : '\n' ∉ l) (hne : l ≠ []) :
+    normNL b (l ++ rest) = l ++ normNL false rest := by
+  induction l generalizing b with
+  | nil => exact absurd rfl hne
+  | cons c cs ih =>
+    have hc1 : c ≠ '\r' := fun e => hr (e ▸ List.mem_cons_self)
+    have hc2 : c ≠ '\n' := fun e => hn (e ▸ List.mem_cons_self)
+    cases cs with
+    | nil => simp [normNL, hc1, hc2]
+    | cons d ds =>
+      have := ih false (fun hm => hr (List.mem_cons_of_mem _ hm)) (fun hm => hn (List.mem_cons_of_mem _ hm)) (by simp)
+      simp only [List.cons_append, normNL, hc1, hc2, if_false] at this ⊢
+      rw [this]
+
+theorem normNL_crlf (ls : List Str) (hn : ∀ l ∈ ls, '\n' ∉ l) (hr : ∀ l ∈ ls, '\r' ∉ l) :
+    normNL false (writeTextCRLF ls) = writeText ls := by
+  induction ls with
+  | nil => rfl
+  | cons l ls ih =>
+    have ih' := ih (fun m hm => hn m (List.mem_cons_of_mem _ hm)) (fun m hm => hr m (List.mem_cons_of_mem _ hm))
+    have tail : normNL false ('\r' :: '\n' :: writeTextCRLF ls) = '\n' :: writeText ls := by
+      simp [normNL, ih']
+    by_cases hl : l = []
+    · subst hl
+      simpa [writeTextCRLF, writeText] using tail
+    · rw [writeTextCRLF, writeText, normNL_append_plain l _ false (hr l List.mem_cons_self) (hn l List.mem_cons_self) hl, tail]
+
+/-- … so a file rewritten with `\r\n` line ends reads back as the same lines -/
+theorem readLines_crlf (ls : List Str) (hn : ∀ l ∈ ls, '\n' ∉ l) (hr : ∀ l ∈ ls, '\r' ∉ l) :
+    readLines (writeTextCRLF ls) = readLines (writeText ls) := by
+  have hcr : '\r' ∉ writeText ls := by
+    intro hm
+    rcases mem_writeText ls _ hm with h | ⟨l, hl, hx⟩
+    · exact absurd h (by decide)
+    · exact hr l hl hx
+  unfold readLines
+  rw [normNL_crlf ls hn hr, normNL_id _ hcr]
+
 -- ---------------------------------------------------------------- strip() on written lines
 
 /-- nothing for `strip()` to remove at either end, and something there -/
@@ -659,6 +703,32 @@ theorem readScript_write (names : List Str) (edges : List Edge) (fs : List (Str 
     rw [List.nil_append]
     exact (List.filter_sublist.map _).nodup hnd
   rw [foldl_dictSet _ [] hnd', List.nil_append] at this
+  exact this
+
+-- ---------------------------------------------------------------- `\r\n` line ends
+
+theorem writeGraph_no_breaks (names : List Str) (edges : List Edge)
+    (hn : ∀ f ∈ names, NameOK f) (he : ∀ e ∈ edges, NameOK e.1 ∧ NameOK e.2.1) :
+    (∀ l ∈ writeGraph names edges, '\n' ∉ l) ∧ (∀ l ∈ writeGraph names edges, '\r' ∉ l) := by
+  have hplV : plainP pVERTICES := plain_of_dec _ (by decide)
+  have hplE : plainP pEDGE := plain_of_dec _ (by decide)
+  have hN := namesLine_ok pVERTICES fixedP_VERTICES hplV names hn
+  constructor <;> intro l hl <;> rcases List.mem_cons.mp hl with rfl | hl
+  · exact hN.1
+  · obtain ⟨e, hem, rfl⟩ := List.mem_map.mp hl
+    exact (edgeLine_ok pEDGE fixedP_EDGE hplE e (he e hem)).1
+  · exact hN.2.1
+  · obtain ⟨e, hem, rfl⟩ := List.mem_map.mp hl
+    exact (edgeLine_ok pEDGE fixedP_EDGE hplE e (he e hem)).2.1
+
+/-- graph files with `\r\n` line ends (written through another platform's text mode) read back the same -/
+theorem readGraph_writeGraph_crlf (names : List Str) (edges : List Edge)
+    (hn : ∀ f ∈ names, NameOK f) (he : ∀ e ∈ edges, NameOK e.1 ∧ NameOK e.2.1) :
+    readGraph (writeTextCRLF (writeGraph names edges)) = some (names, edges) := by
+  obtain ⟨h1, h2⟩ := writeGraph_no_breaks names edges hn he
+  have := readGraph_writeGraph names edges hn he
+  unfold readGraph at this ⊢
+  rw [readLines_crlf _ h1 h2]
   exact this
 
 end CF.Txt
